@@ -17,7 +17,36 @@ const publicIRI = "https://www.w3.org/ns/activitystreams#Public"
 // addressee tokens: 3 addressees in several presentations, the public collection, and nil
 var rcptTokens = []string{"nil", "A", "A*", "A~", "B", "B*", "B~", "Pub"}
 
+// rcptSalt makes the ids of every case fresh (a host label), so that nothing the library may remember about a pair of
+// ids from an earlier case can decide a later one
+var rcptSalt string
+
 func rcptItem(tok string) vocab.Item {
+	it := rcptItemBase(tok)
+	if rcptSalt == "" || it == nil || tok == "Pub" {
+		return it
+	}
+	salt := func(id vocab.IRI) vocab.IRI {
+		// a host label: the shape of path, query and fragment stays what the token says
+		s := string(id)
+		i := strings.Index(s, "://")
+		return vocab.IRI(s[:i+3] + rcptSalt + "." + s[i+3:])
+	}
+	switch v := it.(type) {
+	case vocab.IRI:
+		return salt(v)
+	case *vocab.Actor:
+		v.ID = salt(v.ID)
+	case *vocab.Object:
+		v.ID = salt(v.ID)
+	case vocab.Object:
+		v.ID = salt(v.ID)
+		return v
+	}
+	return it
+}
+
+func rcptItemBase(tok string) vocab.Item {
 	switch tok {
 	case "nil":
 		return nil
@@ -106,6 +135,8 @@ func (r rcptCase) String() string {
 
 // runRecipients builds the value, calls Recipients() and compares with the scan model.
 func runRecipients(c *Ctx, rc rcptCase) {
+	rcptSalt = fmt.Sprintf("s%x", H64(rc.String())&0xffffff)
+	defer func() { rcptSalt = "" }()
 	ki := vmodel.KindIndex(rc.Kind)
 	p := vmodel.Kinds[ki].New()
 	v := reflect.ValueOf(p).Elem()
@@ -139,6 +170,29 @@ func runRecipients(c *Ctx, rc rcptCase) {
 	if rc.Block != "" {
 		blocked = rcptItem(rc.Block)
 		v.FieldByName("Object").Set(reflect.ValueOf(blocked))
+	}
+	// every other case: first the comparisons an application makes while it builds such a value (strict, scheme-sensitive,
+	// through ItemsEqual and IRI.Equals) - read-only calls that must not influence what Recipients() decides afterwards
+	if H64(rc.String())%2 == 0 {
+		var all []vocab.Item
+		for i := range items {
+			all = append(all, items[i]...)
+		}
+		if actor != nil {
+			all = append(all, actor)
+		}
+		c.Guard("warm-up comparisons", func() {
+			for _, a := range all {
+				for _, b := range all {
+					if a == nil || b == nil {
+						continue
+					}
+					_ = a.GetLink().Equals(b.GetLink(), true) // the strict comparison comes first: it is the one whose answer differs
+					_ = vocab.ItemsEqual(a, b)
+				}
+			}
+		})
+		c.Count("warmed-up-cases", 1)
 	}
 	// ---- reference model ----
 	var seen []string
